@@ -148,7 +148,7 @@ pub fn record(seed: u64, tier: &str, out: &str) {
     let mut rng = Rng::new(seed ^ 0xC14);
     let mut t = TraceWriter::create(out);
     let mut draws = 0u64;
-    let step = if thorough { 1 } else { 3 };
+    let step = if thorough { 1 } else { 2 };
     small_type!(i8, t, "i8", true, &mut rng, draws, step);
     small_type!(u8, t, "u8", false, &mut rng, draws, step);
     wide_type!(i16, t, "i16", true, &mut rng, draws);
